@@ -1709,8 +1709,7 @@ theorem encode_ne_nil : (t : Ty) → (o : SortOptions) → (a : Val) → conform
     | tuple _ => simp [conforms] at h
     | union _ _ => simp [conforms] at h
   | .union ids kids, o, a, _ => by
-    cases a <;> simp only [encode] <;>
-      (intro h'; exact invIf_ne_nil _ _ (by simp) (List.append_eq_nil_iff.mp h').1)
+    cases a <;> simp only [encode] <;> exact invIf_ne_nil _ _ (by simp)
 
 
 theorem then_some (r : Ordering) (X : Ordering) :
